@@ -183,16 +183,30 @@ def gSettle (base : Nat → Bool) : Nat → GS → GS
 
 structure GW where
   nodes : Nat                -- number of derived nodes
+  spare : Nat                -- index of the first spare edge (`j → top`, one per lower node `j`), 0 if the top is no DerivedSet
   per : List GS              -- one state per element of the printed universe
 
 def gBase (j : Nat) : Bool := decide (j < 3)
 
+/-- The top node is a DerivedSet: it may inherit from one more node (`gs inherit j`) and unsubscribe from it again
+(`gs unsub j`); one spare edge `j → top` per lower node, not connected at first. -/
+def gSpares (nodes : List (Bool × List Nat)) : List (Nat × Nat × Bool × Bool) :=
+  match nodes.getLast? with
+  | some (true, _) => (List.range (nodes.length + 2)).map (fun j => (j, nodes.length + 2, true, true))
+  | _ => []
+
 def GW.create (nodes : List (Bool × List Nat)) (init : List (List Nat)) : GW :=
   let wiring := gWiringOf nodes
   { nodes := nodes.length,
+    spare := if (gSpares nodes).isEmpty then 0 else wiring.length,
     per := (List.range U).map (fun x =>
-      let s0 := (List.range 3).foldl (fun s j => gStep true gBase s (.write j ((init.getD j []).contains x))) (GS.init wiring)
+      let s0 := (List.range 3).foldl (fun s j => gStep true gBase s (.write j ((init.getD j []).contains x)))
+        (GS.init (wiring ++ gSpares nodes))
       (List.range wiring.length).foldl (fun s i => gSettle gBase 64 (gStep true gBase s (.connect i))) s0) }
+
+/-- the same structural op on every element's state, then everything delivered -/
+def GW.apply (w : GW) (ops : List GOp) : GW :=
+  { w with per := w.per.map (fun s => gSettle gBase 64 (ops.foldl (gStep true gBase) s)) }
 
 def GW.write (w : GW) (j : Nat) (newMem : Nat → Bool → Bool) : GW :=
   { w with per := w.per.zipIdx.map (fun p => gSettle gBase 64 (gStep true gBase p.1 (.write j (newMem p.2 (p.1.v j))))) }
@@ -207,6 +221,18 @@ def GW.stepLine (st : Option GW) (toks : List String) : Option GW × String :=
     match gShape shape, parseNats a, parseNats b, parseNats c with
     | some nodes, some a, some b, some c => let w := GW.create nodes [a, b, c]; (some w, w.show)
     | _, _, _, _ => (st, "bad-op")
+  | some w, ["inherit", j] =>
+    match j.toNat? with
+    | some j =>
+      if w.spare == 0 || j ≥ w.nodes + 2 then (st, "bad-op")
+      else let w' := w.apply [.connect (w.spare + j)]; (some w', w'.show)
+    | none => (st, "bad-op")
+  | some w, ["unsub", j] =>
+    match j.toNat? with
+    | some j =>
+      if w.spare == 0 || j ≥ w.nodes + 2 then (st, "bad-op")
+      else let w' := w.apply [.unsubMark (w.spare + j), .unsubRemove (w.spare + j)]; (some w', w'.show)
+    | none => (st, "bad-op")
   | some w, op =>
     match parseSrcOp op with
     | some (j, sop) =>
